@@ -28,7 +28,12 @@ structure RdSt where
   indef : Bool
   count : Nat
   read : Nat
+  outer : Bool := false        -- `m_indef_file`: the file array itself has indefinite length, its break follows the block array
   deriving Repr
+
+/-- `CdnsReader::end_of_file()`: the break that closes a file array of indefinite length -/
+def endOfFile (st : RdSt) : Prog (Option Val × RdSt) :=
+  if st.outer then do readBreak; pure (none, { st with outer := false }) else pure (none, st)
 
 /-- `CdnsReader::read_block(eof)`: `none` = eof -/
 def readBlock (fuel : Nat) (st : RdSt) : Prog (Option Val × RdSt) :=
@@ -36,11 +41,11 @@ def readBlock (fuel : Nat) (st : RdSt) : Prog (Option Val × RdSt) :=
     let t ← peekType
     if t = tBreak then do
       readBreak
-      pure (none, { st with indef := false, count := st.read })
+      endOfFile { st with indef := false, count := st.read }
     else do
       let v ← readVal fuel block
       pure (some v, { st with read := st.read + 1 })
-  else if st.read = st.count then pure (none, st)
+  else if st.read = st.count then endOfFile st
   else do
     let v ← readVal fuel block
     pure (some v, { st with read := st.read + 1 })
